@@ -123,7 +123,7 @@ def request (requestURI host accept : Str) : Str :=
 
 /-! ### Hops, redirects and the cache (C03) -/
 
-/-- URLs are represented by their `String()` form (the cache key). -/
+/-- URLs are represented by their `String()` form. -/
 abbrev Url := Str
 
 structure Env (Doc : Type) where
@@ -161,10 +161,15 @@ structure Step (Doc : Type) where
   cache : Cache Doc
   requests : List Url        -- connections opened, in order (one request each)
 
+/-- The cache key of a request: `strings.Join(tolerated, ",") + " " + link.String()`.  What is
+    remembered about a link is remembered for requests that tolerate the same types. -/
+def cacheKey (tolerated : List Str) (u : Url) : Str :=
+  List.intercalate [','] tolerated ++ ' ' :: u
+
 /-- `jtp.Get(link, accept, tolerated, maxRedirects)`. -/
 def get (env : Env Doc) (tolerated : List Str) : Nat → Cache Doc → Url → Step Doc
   | budget, cache, u =>
-    match cache.get u with
+    match cache.get (cacheKey tolerated u) with
     | (some (.doc d src), cache') => ⟨.ok d src, cache', []⟩
     | (some (.redirect t), cache') =>
       match budget with
@@ -179,7 +184,7 @@ def get (env : Env Doc) (tolerated : List Str) : Nat → Cache Doc → Url → S
           | .err => ⟨.err, cache', [u]⟩
           | .doc body =>
             match env.decode body with
-            | some d => ⟨.ok d u, cache'.add u (.doc d u), [u]⟩
+            | some d => ⟨.ok d u, cache'.add (cacheKey tolerated u) (.doc d u), [u]⟩
             | none => ⟨.err, cache', [u]⟩
           | .redirect v =>
             match env.resolve u v with
@@ -188,7 +193,7 @@ def get (env : Env Doc) (tolerated : List Str) : Nat → Cache Doc → Url → S
               match budget with
               | 0 => ⟨.err, cache', [u]⟩
               | b + 1 =>
-                let r := get env tolerated b (cache'.add u (.redirect t)) t
+                let r := get env tolerated b (cache'.add (cacheKey tolerated u) (.redirect t)) t
                 ⟨r.res, r.cache, u :: r.requests⟩
 
 end Jtp
@@ -255,13 +260,15 @@ inductive Chain (env : Env Doc) (tolerated : List Str) : Url → Nat → Doc →
       env.https u = true → env.serve u = some resp → exchange tolerated resp = .redirect v →
       env.resolve u v = some t → Chain env tolerated t k d src → Chain env tolerated u (k + 1) d src
 
-/-- Every cache entry is a true fact about the (unchanged) servers. -/
+/-- Every cache entry filed under a key of this kind of request (`cacheKey tolerated u`) is a
+    true fact about the (unchanged) servers, for that kind of request.  Entries filed by requests
+    that tolerate other types have other keys and are no concern of this one. -/
 def Sound (env : Env Doc) (tolerated : List Str) (c : Cache Doc) : Prop :=
-  ∀ k e, (k, e) ∈ c.entries →
+  ∀ k e, (k, e) ∈ c.entries → ∀ u, k = cacheKey tolerated u →
     match e with
-    | .doc d src => src = k ∧ Chain env tolerated k 0 d k
-    | .redirect t => env.https k = true ∧ ∃ resp v, env.serve k = some resp ∧
-        exchange tolerated resp = .redirect v ∧ env.resolve k v = some t
+    | .doc d src => src = u ∧ Chain env tolerated u 0 d u
+    | .redirect t => env.https u = true ∧ ∃ resp v, env.serve u = some resp ∧
+        exchange tolerated resp = .redirect v ∧ env.resolve u v = some t
 
 /-- The lines of a header block up to the first blank line, and the body after it. -/
 def splitHeaders : Nat → Str → Option (List Str × Str)
